@@ -198,3 +198,20 @@ Theorem C06_accepted_done_once : forall sc cert obs,
   (cnt (is_close h) obs <= 1)%nat.
 Proof. exact accepted_done_once. Qed.
 Print Assumptions C06_accepted_done_once.
+
+(* ---- which received lines are echoes ------------------------------------------------------------ *)
+
+(* The events of a scenario are built by [received cmd src nick_at_read]: a line is an echo
+   exactly when it is a PRIVMSG or NOTICE with a source whose RFC1459-folded nick equals the
+   folded nick the client has when the line is read; the case of either nick is immaterial. *)
+Theorem C06_echo_predicate : forall cmd src nick,
+  is_echo cmd src nick = true <->
+  (cmd = PRIVMSG_cmd \/ cmd = NOTICE_cmd) /\ src <> [] /\ Names.to_rfc1459 src = Names.to_rfc1459 nick.
+Proof. exact is_echo_spec. Qed.
+Print Assumptions C06_echo_predicate.
+
+Theorem C06_echo_case_insensitive : forall cmd src nick src' nick',
+  Names.to_rfc1459 src = Names.to_rfc1459 src' -> Names.to_rfc1459 nick = Names.to_rfc1459 nick' ->
+  is_echo cmd src nick = is_echo cmd src' nick'.
+Proof. exact is_echo_case. Qed.
+Print Assumptions C06_echo_case_insensitive.
